@@ -5,7 +5,7 @@ import random
 import runner
 from runner import Report, run_shards, merge, seed
 
-NCFG = 88
+NCFG = 100
 INVARIANTS = ['ValuesAreValid', 'EncodeSucceeds', 'RoundTrip', 'Idempotent', 'DecodedIsValid',
               'StrictRefinesLenient', 'DevsOnlyOnFaults']
 
@@ -21,7 +21,7 @@ def _cfg(shard, max_tamper, sel, depth=2, emit=True):
 
 
 def _shards(tier, quick_n):
-    """Schema indices explored: all 88 in thorough; in quick either all (quick_n >= 88) or one
+    """Schema indices explored: all 100 in thorough; in quick either all (quick_n >= 100) or one
     (closed?, catch-all?) combination per slot type, chosen by the seed, so that every slot type
     is met on every run."""
     if tier == 'thorough' or quick_n >= NCFG:
@@ -138,7 +138,7 @@ def _run(prop, tier, replay, max_tamper, quick_n, text):
 
 def check_c04(tier, replay=None):
     return _run('C04', tier, replay, 0, NCFG,
-                'every (schema of 88, root type of 17, boundary-biased valid value) state of StoneWireMC; '
+                'every (schema of 100, root type of 17, boundary-biased valid value) state of StoneWireMC; '
                 'each replayed: build with generated classes, encode, decode strict+lenient through both '
                 'entry points, compare by runtime == and by projected abstract value, re-encode')
 
